@@ -180,3 +180,15 @@ MUTATIONS += [
     ("download-wrong-join", ["C20"], CL, "            lfn = os.path.join(localpath, fn)\n            download(", "            lfn = os.path.join(localpath, fn.strip())\n            download("),
     ("upload-invalid-path-silent", ["C20"], CL, '        if not ignore_invalid:\n            raise ValueError("cannot upload %r" % (localpath,))', '        if not ignore_invalid and filter:\n            raise ValueError("cannot upload %r" % (localpath,))'),
 ]
+
+MUTATIONS += [
+    # ---- C08: exactly one response
+    ("reply-sent-in-finally", ["C08"], P, "            self._send(consts.MSG_EXCEPTION, seq, self._box_exc(t, v, tb))\n        else:",
+     "            self._send(consts.MSG_EXCEPTION, seq, self._box_exc(t, v, tb))\n            res = None\n        if True:"),
+    ("exception-path-not-sending", ["C08"], P, "            if t is KeyboardInterrupt and self._config[\"propagate_KeyboardInterrupt_locally\"]:\n                raise\n            self._send(consts.MSG_EXCEPTION, seq, self._box_exc(t, v, tb))",
+     "            if t is KeyboardInterrupt and self._config[\"propagate_KeyboardInterrupt_locally\"]:\n                raise\n            if t is not KeyError:\n                self._send(consts.MSG_EXCEPTION, seq, self._box_exc(t, v, tb))"),
+    ("reply-seq-from-counter", ["C08", "C13"], P, "                self._send(consts.MSG_REPLY, seq, self._box(res))", "                self._send(consts.MSG_REPLY, seq if type(seq) is int and seq < 40 else 0, self._box(res))"),
+    ("bare-except-to-exception", ["C08"], P, "        except:  # TODO: revist how to catch handle locally", "        except Exception:  # TODO: revist how to catch handle locally"),
+    ("unbox-outside-try", ["C08", "C07"], P, "        try:\n            handler, args = raw_args\n            args = self._unbox(args)",
+     "        handler, args = raw_args\n        args = self._unbox(args)\n        try:\n            pass"),
+]
